@@ -131,6 +131,18 @@ def make_cases(run, scratch):
             cases.append(("x86:%s|%s" % (os.path.basename(tb), ";".join(cfg)),
                           ["env HWLOC_COMPONENTS x86,stop", "env HWLOC_THISSYSTEM 0", "env HWLOC_FSROOT"] + cfg + ["src cpuid " + d], "x86"))
     cases.append(("native", ["env HWLOC_COMPONENTS", "env HWLOC_FSROOT", "env HWLOC_CPUID_PATH", "env HWLOC_THISSYSTEM", "src native"], "native"))
+    # the live machine under every flag subset that is legal for a native load (all ten flag bits) x filters x
+    # component selections
+    base = ["env HWLOC_FSROOT", "env HWLOC_CPUID_PATH", "env HWLOC_THISSYSTEM"]
+    for r in range(40 if quick else 600):
+        fl = 0
+        for b in (1, 2, 4, 8, 16, 32, 64, 128, 256, 512):
+            if rng.random() < 0.3:
+                fl |= b
+        comp = rng.choice(["env HWLOC_COMPONENTS", "env HWLOC_COMPONENTS linux,stop", "env HWLOC_COMPONENTS x86,stop",
+                           "env HWLOC_COMPONENTS -linux", "env HWLOC_COMPONENTS x86,linux,stop", "env HWLOC_COMPONENTS no_os,stop"])
+        cfg = (S.filter_lines(rng) if rng.random() < 0.7 else []) + ["flags %d" % fl]
+        cases.append(("native|%s|%s" % (comp[4:], ";".join(cfg)), [comp] + base + cfg + ["src native"], "native"))
     return cases
 
 
